@@ -21,7 +21,7 @@ const verif::Info verif_info = {
     "C20", 700,
     "a thread program set: 2..8 threads behind a spin barrier, a pool of 10 immutable ST::string / char, UTF-16 and UTF-32 buffers of every size class (empty, short, at the "
     "small-string limit, long; words, numbers, separators, multi-byte text) built before the threads start; each thread runs a generated list of 5..60 operations, 4 rounds: read-only "
-    "calls on the shared objects (find/find_last/contains cs+ci, compare family, hashes, substr/left/right/trim, before/after, to_upper/lower, replace, split x3, tokenize, "
+    "calls on the shared objects (find/find_last/contains cs+ci, compare family, hashes, substr/left/right/trim, before/after, to_upper/lower, replace, split x3, tokenize (delimiter sets of 1..30 characters), searches with needles of 65..264 bytes in both case modes, "
     "to_utf16/32/wchar/latin_1/std strings, to_int/uint/double in several bases, iteration, buffer copies and comparisons, free conversion functions, hex/base64 encode+decode, "
     "ST::format / format_latin_1 / writef / printf with shared strings, integers and floating point incl. renderings of 64+ characters) interleaved with operations on thread-local "
     "strings, buffers, string_streams (append, <<, truncate, to_string) and from_int/from_double. Half of the cases run the same program in every thread. Oracle: ThreadSanitizer "
@@ -50,12 +50,13 @@ struct Pool {
 };
 
 struct Op { uint8_t kind, a, b, c; };
-enum { NKINDS = 46 };
+enum { NKINDS = 48 };
 
 const char *const kNeedles[] = {"a", "ab", ",", " ", "", "the", "THE", "\xC3\xA9", "1", "0x", "aa", "xyz", ";", "-", "e", "\xE2\x82\xAC"};
 const char *const kFormats[] = {"{}", "[{>12}]", "{<8}|{x}", "{_*>20}", "{}{}{}", "{&2} {&1}", "{.3}", "{#x} {+d} {o}", "{f}", "{.70f}", "{.66e}", "{e} {E}", "{+.2f}|{>30}", "{c}{c}", "{_0>300}", "{b}"};
 const double kDoubles[] = {0.0, 1.5, -2.25, 3.14159265358979, 1e63, 1e100, -1e300, 1.7976931348623157e308, 5e-324, 123456789.125, 1e-7, -0.0};
-const char kDelims[][6] = {" ", ",", ", ;", "\t\n ", "a", "-:"};
+const char kDelims[][48] = {" ", ",", ", ;", "\t\n ", "a", "-:", " ,;:-\t\n.!?()[]{}<>/|\\\"'", "0123456789abcdefABCDEF ,;", " ,;:-_=+*&^%$#@!~`|/?.<>()[]{}"};
+enum { NDELIMS = 9 };
 
 // One operation.  `rd` reads shared objects only through const references; locals are thread-private.
 struct Local {
@@ -77,13 +78,13 @@ void run_op(const Pool &P, const Op &op, Local &L, Digest &D) {
     case 4: { int r = S.compare(T, cs); D.num(r < 0 ? -1 : r > 0); D.num(S == T); D.num(S < T); D.num(S.compare_n(T, op.c % 20, cs) == 0); } break;
     case 5: D.num((long long)ST::hash()(S)); D.num((long long)ST::hash_i()(S)); D.num((long long)std::hash<ST::string>()(T)); break;
     case 6: D.str(S.substr((ST_ssize_t)(op.b % 24) - 4, op.c % 40)); D.str(S.left(op.c % 20)); D.str(S.right(op.b % 20)); break;
-    case 7: D.str(S.trim()); D.str(S.trim_left(kDelims[op.b % 6])); D.str(S.trim_right(kDelims[op.c % 6])); break;
+    case 7: D.str(S.trim()); D.str(S.trim_left(kDelims[op.b % NDELIMS])); D.str(S.trim_right(kDelims[op.c % NDELIMS])); break;
     case 8: D.str(S.before_first(needle, cs)); D.str(S.after_first(needle, cs)); D.str(S.before_last(T, cs)); D.str(S.after_last(needle[0] ? needle[0] : ',', cs)); break;
     case 9: D.str(S.to_upper()); D.str(S.to_lower()); break;
     case 10: try { D.str(S.replace(needle, kNeedles[op.c % 16], cs)); } catch (const ST::unicode_error &) { D.num(-4); } break;
     case 11: { std::vector<ST::string> v = S.split(needle[0] ? needle[0] : ',', op.c % 5 ? (size_t)-1 : 2, cs); D.num((long long)v.size()); for (auto &x : v) D.str(x); } break;
     case 12: { std::vector<ST::string> v; try { v = S.split(needle, (size_t)-1, cs); } catch (const ST::unicode_error &) { D.num(-4); } D.num((long long)v.size()); for (auto &x : v) D.str(x); } break;
-    case 13: { std::vector<ST::string> v = S.tokenize(kDelims[op.b % 6]); D.num((long long)v.size()); for (auto &x : v) D.str(x); } break;
+    case 13: { std::vector<ST::string> v = S.tokenize(kDelims[op.b % NDELIMS]); D.num((long long)v.size()); for (auto &x : v) D.str(x); } break;
     case 14: D.buf(S.to_utf16()); D.buf(S.to_utf32()); D.buf(S.to_wchar()); break;
     case 15: try { D.buf(S.to_latin_1((op.c & 1) != 0)); } catch (const ST::unicode_error &) { D.num(-4); } D.buf(S.to_utf8()); break;
     case 16: { std::string a = S.to_std_string(); D.bytes(a.data(), a.size()); std::u16string b = S.to_std_u16string(); D.bytes(b.data(), b.size() * 2); std::wstring w = S.to_std_wstring(); D.bytes(w.data(), w.size() * sizeof(wchar_t)); } break;
@@ -131,6 +132,14 @@ void run_op(const Pool &P, const Op &op, Local &L, Digest &D) {
     case 42: try { D.str(S.fill(op.b % 30, needle[0] ? needle[0] : 'z')); } catch (const ST::unicode_error &) { D.num(-4); } D.str(ST::string::fill(op.c % 50, 'q')); break;
     case 43: { ST::string u = ST::string::from_std_string(S.to_std_string()); D.num(u == S); D.num(ST::less_i()(S, T)); D.num(ST::equal_i()(S, T)); D.num(S.compare_i(T) == 0); } break;
     case 44: { std::vector<ST::string> v = S.split(' '); ST::string_stream j; for (auto &x : v) j << x << '+'; D.bytes(j.raw_buffer(), j.size()); } break;
+    case 46: {   // needles longer than 64 / 256 bytes cut out of (or unrelated to) a long shared string, both case modes
+        const ST::string &L = P.s[op.a % 3];               // slots 0..2 always hold long multi-token strings
+        size_t nl = 65 + op.b % 200; if (nl > L.size()) nl = L.size();
+        ST::string needle2 = (op.c & 2) ? L.right(nl).to_upper() : L.left(nl);
+        D.num(L.find(needle2, cs)); D.num(L.find_last(needle2, cs)); D.num(T.contains(needle2, cs)); D.str(L.after_first(needle2, cs)); D.str(L.replace(needle2, "-", cs));
+        std::vector<ST::string> v = L.split(needle2, 4, cs); D.num((long long)v.size());
+    } break;
+    case 47: { std::vector<ST::string> v = S.tokenize(kDelims[6 + op.b % 3]); D.num((long long)v.size()); for (auto &x : v) D.str(x); v = T.tokenize(kDelims[6 + op.c % 3]); D.num((long long)v.size()); } break;
     default: { ST::utf16_buffer w = S.to_utf16(); ST::string back(w); D.num(back == S); ST::wchar_buffer ww = T.to_wchar(); ST::string b2 = ST::string::from_wchar(ww.data(), ww.size()); D.num(b2 == T); } break;
     }
 }
@@ -152,7 +161,7 @@ void build_pool(verif::Reader &r, Pool &P) {
     static const uint16_t targets[] = {0, 1, 3, 14, 15, 16, 17, 40, 120, 300};
     for (int i = 0; i < Pool::N; i++) {
         size_t target = targets[r.idx(10)] + (size_t)(i == 0 ? 0 : 0);
-        if (i < 3 && target < 20) target = 20 + i * 7;      // a few long, multi-token strings are always present
+        if (i < 3 && target < 320) target = 320 + i * 37;    // a few long, multi-token strings are always present (needles of 65..264 bytes are cut out of them)
         std::string b;
         unsigned wsel = r.u8(), ssel = r.u8();
         while (b.size() < target) { b += words[(wsel + b.size() * 7 + i) % 21]; if (b.size() < target) b += seps[(ssel + b.size()) % 8]; }
